@@ -49,6 +49,13 @@ def check_canonical(doc, obs):
     for label, b in (('writer', data), ('oracle', want)):
         if label == 'oracle' and want == data:
             continue
+        if label == 'oracle' and common.bytes_equivalent(data, want,
+                                                         layout)[0]:
+            # the library spells JSON strings differently from the oracle:
+            # the oracle's bytes are then not a file the library itself
+            # produces (the foreign-file part covers them)
+            obs.count('tolerance:oracle_bytes_not_library_spelling')
+            continue
         try:
             tree = DiffX.from_bytes(b)
             # the same document inside a larger stream, positioned at its
